@@ -88,7 +88,15 @@ FAMILIES = {
 def random_recipe(rng, n):
     wrappers = [lambda v: [v], lambda v: (v, 1), lambda v: {'k': v}, lambda v: S.CallObj(S.Ctor, (v,), []),
                 lambda v: pp.comment([v], 'c'), lambda v: {'a': v, 'b': 2, 'c': 3}, lambda v: [v, 'some text here']]
-    picks = [rng.choice(wrappers) for _ in range(n)]
+    COMMENT, DICTS = 4, (2, 5)
+    picks_i = []
+    for _ in range(n):
+        i = rng.randrange(len(wrappers))
+        # a dict directly around a commented value is the exponential pattern of known finding K3 (its own family): not drawn here
+        while picks_i and picks_i[-1] == COMMENT and i in DICTS:
+            i = rng.randrange(len(wrappers))
+        picks_i.append(i)
+    picks = [wrappers[i] for i in picks_i]
 
     def build(m):
         v = 0
@@ -206,14 +214,16 @@ def cost_section(tier, seed):
                 s, over = count_steps(v)
                 tot += 1
                 steps.append((n, s, over))
+                if over:
+                    # the model's cost function would faithfully take as long as the implementation: not asked beyond the step budget
+                    model.append(None)
+                    break
                 g = drv.ask('(cost %s %s)' % (val_to_sx(v), settings_sx(4, 79, 71, None, 1000, 0)))
                 try:
                     _ok, calls, work = g.strip('()').split()
                     model.append(int(calls) + int(work))
                 except Exception:
                     model.append(None)
-                if over:
-                    break
             rows[name] = {'steps': steps, 'model_cost': model}
             ratios = [steps[i + 1][1] / max(1, steps[i][1]) for i in range(len(steps) - 1)]
             rows[name]['ratios'] = [round(r, 2) for r in ratios]
